@@ -16,12 +16,16 @@ def run(prog):
     fn = prog.find1(name="decide", self_adt="repr::unit_prop::UnitPropagate", unit="rsdd-lib")
     te = fn.terms
     cfg = fn.cfg
+    # the cursor is the loop-carried local handed to swap_remove (whatever it is called)
     idx_local = None
-    for d in fn.debug:
-        if d["name"] == "watcher_idx" and not d["place"]["proj"]:
-            idx_local = d["place"]["l"]
+    for cs in te.calls:
+        if cs.callee.name == "swap_remove" and len(cs.args) == 2:
+            for x in mir.subterms(cs.args[1]):
+                if x[0] == "mu":
+                    idx_local = x[2]
+                    break
     if idx_local is None:
-        raise CheckerError("WI: local watcher_idx not found in UnitPropagate::decide")
+        raise CheckerError("WI: no loop-carried cursor is passed to swap_remove in UnitPropagate::decide")
     headers = [h for (h, l) in te.mu_init if l == idx_local]
     if not headers:
         raise CheckerError("WI: watcher_idx is not loop-carried")
